@@ -16,11 +16,6 @@
 //!   nx16 flags src | aac flags src | fqz lens src | names src | gz level src | bz2 level src | xz level src
 //!   big codec param shape len seed     (input built inside `run`; > 1 MiB inputs)
 
-#[path = "../shared/c08_classes.rs"]
-mod c08_classes;
-#[path = "../shared/c08_nx16_classes.rs"]
-mod c08_nx16_classes;
-
 use noodles_cram::codecs::{aac, rans_4x8::Order, rans_nx16};
 use noodles_cram::verif as v;
 use nv::{Case, CaseWriter, Obs, Outcome, Rng, errkind, guarded, hex};
@@ -236,93 +231,10 @@ fn sweep_case(c: &Case) -> Obs {
 }
 
 // -------------------------------------------------------------------------------------------
-// rANS 4x8: input classes with a known cause (derived from the INPUT, never from the failure)
+// rANS 4x8
 
-/// What the encoder's normalize_frequencies does to one row of counts, computed in wide arithmetic.
-#[derive(Debug, PartialEq)]
-enum RowClass {
-    Fine,
-    /// f * 4095 does not fit u32 for some count f
-    U32Overflow,
-    /// normalized_sum > 4095 and the excess exceeds the maximum symbol's scaled frequency
-    U16Underflow,
-    /// the correction leaves the most frequent symbol with frequency 0 (encoder would never terminate)
-    ZeroMax,
-}
-
-fn classify_row(raw: &[u64; 256]) -> RowClass {
-    let sum: u64 = raw.iter().sum();
-    if sum == 0 {
-        return RowClass::Fine;
-    }
-    if raw.iter().any(|&f| f * 4095 > u32::MAX as u64) || sum > u32::MAX as u64 {
-        return RowClass::U32Overflow;
-    }
-    let mut max = 0;
-    let mut max_index = 0;
-    for (i, &f) in raw.iter().enumerate() {
-        if f >= max {
-            max = f;
-            max_index = i;
-        }
-    }
-    let mut nf = [0u64; 256];
-    let mut nsum = 0;
-    for i in 0..256 {
-        if raw[i] > 0 {
-            nf[i] = (raw[i] * 4095 / sum).max(1);
-            nsum += nf[i];
-        }
-    }
-    if nsum > 4095 {
-        let excess = nsum - 4095;
-        if nf[max_index] < excess {
-            return RowClass::U16Underflow;
-        }
-        if nf[max_index] == excess {
-            return RowClass::ZeroMax;
-        }
-    }
-    RowClass::Fine
-}
-
-/// which symbols are written by write_frequencies for this row of counts (count > 0)
-fn rle_classes(present: &[bool; 256]) -> Option<&'static str> {
-    // the writer starts with prev_sym = 0 even when symbol 0 is absent: a table whose first
-    // symbol is 1 gets a run-length byte that the reader does not expect
-    let first = present.iter().position(|&p| p);
-    if first == Some(1) {
-        return Some("first-symbol-1");
-    }
-    // a run of consecutive symbols that reaches symbol 255: `position(..).unwrap_or(0)` yields a
-    // run length of 0 although the run continues
-    // (only matters when a run-length byte is written for a symbol s >= 1 whose predecessor was
-    // written, and every symbol s+1..=255 is present, and s < 255)
-    let mut prev: Option<usize> = None;
-    let mut s = 0;
-    while s < 256 {
-        if !present[s] {
-            s += 1;
-            continue;
-        }
-        if s > 0 && prev == Some(s - 1) {
-            let len = present[s + 1..].iter().position(|&p| !p);
-            match len {
-                None if s < 255 => return Some("run-to-255"),
-                None => return None,
-                Some(l) => {
-                    prev = if l > 0 { Some(s + l) } else { prev };
-                    s += l + 1;
-                    continue;
-                }
-            }
-        }
-        prev = Some(s);
-        s += 1;
-    }
-    None
-}
-
+/// count rows as the encoder's normalize_frequencies sees them (only used to guard the witnesses of
+/// the former non-terminating normalisation, see `normaliser_repaired`)
 fn o0_counts(src: &[u8]) -> [u64; 256] {
     let mut c = [0u64; 256];
     for &b in src {
@@ -331,55 +243,40 @@ fn o0_counts(src: &[u8]) -> [u64; 256] {
     c
 }
 
-fn o1_counts(src: &[u8]) -> Vec<[u64; 256]> {
-    let mut c = vec![[0u64; 256]; 256];
-    if src.len() >= 4 {
-        let q = src.len() / 4;
-        for k in 0..4 {
-            c[0][src[k * q] as usize] += 1;
-        }
-        for w in src.windows(2) {
-            c[w[0] as usize][w[1] as usize] += 1;
+/// true iff the old correction (`freq[max] -= excess`) would leave frequency 0 for the most frequent
+/// symbol of this row when normalising to `total`: an encoder WITHOUT the repair never terminates on it
+fn old_correction_zeroes_max(raw: &[u64; 256], total: u64) -> bool {
+    let sum: u64 = raw.iter().sum();
+    if sum == 0 {
+        return false;
+    }
+    let (mut max, mut mi) = (0, 0);
+    for (i, &f) in raw.iter().enumerate() {
+        if f >= max {
+            max = f;
+            mi = i;
         }
     }
-    c
+    let nf: Vec<u64> = raw.iter().map(|&f| if f == 0 { 0 } else { (f * total / sum).max(1) }).collect();
+    let nsum: u64 = nf.iter().sum();
+    nsum > total && nf[mi] == nsum - total
 }
 
-/// tag of the known input class this source belongs to, if any
-fn r4_known_class(order: u8, src: &[u8]) -> Option<String> {
-    if src.is_empty() {
-        // the frequency table of an empty input is the lone terminator 0x00, which the reader takes
-        // for "symbol 0" and then reads the states as its frequency
-        return Some("rans4x8-empty-input".into());
-    }
-    let rows: Vec<[u64; 256]> = if order == 0 { vec![o0_counts(src)] } else { o1_counts(src) };
-    for r in &rows {
-        match classify_row(r) {
-            RowClass::U32Overflow => return Some("rans4x8-normalize-u32-overflow".into()),
-            RowClass::U16Underflow => return Some("rans4x8-normalize-u16-underflow".into()),
-            RowClass::ZeroMax => return Some("rans4x8-normalize-zero-max".into()),
-            RowClass::Fine => {}
-        }
-    }
-    for r in &rows {
-        let mut p = [false; 256];
-        for i in 0..256 {
-            p[i] = r[i] > 0;
-        }
-        if let Some(t) = rle_classes(&p) {
-            return Some(format!("rans4x8-freq-rle-{t}"));
-        }
-    }
-    if order == 1 {
-        let mut p = [false; 256];
-        for i in 0..256 {
-            p[i] = rows[i].iter().any(|&f| f > 0);
-        }
-        if let Some(t) = rle_classes(&p) {
-            return Some(format!("rans4x8-o1-ctx-rle-{t}"));
-        }
-    }
-    None
+/// Safety probe, not an oracle: the DESIGN F8b input makes an encoder without the normalisation
+/// repair panic immediately.  Inputs on which such an encoder would loop forever (allocating
+/// without bound) are only executed when the probe passes.
+fn normaliser_repaired() -> bool {
+    use std::sync::OnceLock;
+    static OK: OnceLock<bool> = OnceLock::new();
+    *OK.get_or_init(|| {
+        let mut rng = Rng(0);
+        let w = shaped(&mut rng, "f8b", 0);
+        matches!(guarded(AssertUnwindSafe(|| v::rans_4x8_encode(Order::Zero, &w))), Outcome::Done(Ok(_)))
+            && {
+                let w = shaped(&mut rng, "nx16under", 0);
+                matches!(guarded(AssertUnwindSafe(|| v::rans_nx16_encode(rans_nx16::Flags::from(0), &w))), Outcome::Done(Ok(_)))
+            }
+    })
 }
 
 fn order_of(o: u64) -> Order {
@@ -402,12 +299,11 @@ fn long_obs(b: &[u8]) -> String {
 fn roundtrip(
     what: &str,
     src: &[u8],
-    known: Option<String>,
     enc: impl FnOnce() -> io::Result<Vec<u8>>,
     dec: impl FnOnce(&[u8]) -> io::Result<Vec<u8>>,
     want_obs: bool,
 ) -> Obs {
-    let tag = |cause: &str| known.clone().unwrap_or_else(|| format!("{what}-{cause}"));
+    let tag = |cause: &str| format!("{what}-{cause}");
     let e = match guarded(AssertUnwindSafe(enc)) {
         Outcome::Done(Ok(e)) => e,
         Outcome::Done(Err(e)) => {
@@ -420,14 +316,7 @@ fn roundtrip(
     };
     let obs = if want_obs { long_obs(&e) } else { "-".to_string() };
     match guarded(AssertUnwindSafe(|| dec(&e))) {
-        Outcome::Done(Ok(d)) if d == src => {
-            let mut o = Obs::ok(obs, !src.is_empty());
-            if let Some(k) = &known {
-                // diagnostic only: the class predicate over-approximates for this input
-                o.verdict = format!("ok in-known-class-but-passes:{k}");
-            }
-            o
-        }
+        Outcome::Done(Ok(d)) if d == src => Obs::ok(obs, !src.is_empty()),
         Outcome::Done(Ok(d)) => {
             let at = d.iter().zip(src).position(|(a, b)| a != b).unwrap_or(d.len().min(src.len()));
             Obs::fail(obs, &tag("decode-mismatch"), format!("len={} decoded_len={} first_diff_at={at}", src.len(), d.len()))
@@ -448,11 +337,10 @@ fn r4_case(order: u64, src: &[u8], want_obs: bool) -> Obs {
             _ => Obs::fail("-", "rans4x8-o1-short-not-refused", format!("len={}", src.len())),
         };
     }
-    let known = r4_known_class(order as u8, src);
-    if known.as_deref() == Some("rans4x8-normalize-zero-max") {
-        return Obs::fail(if want_obs { "Diverges" } else { "-" }, "rans4x8-normalize-zero-max", "not executed: frequency 0 for a present symbol, state_renormalize would never terminate");
+    if old_correction_zeroes_max(&o0_counts(src), 4095) && !normaliser_repaired() {
+        return Obs::fail(if want_obs { "Diverges" } else { "-" }, "rans4x8-normalize-zero-max", "not executed: this encoder lacks the normalisation repair (probe input panicked) and would never terminate");
     }
-    roundtrip(what, src, known, || v::rans_4x8_encode(order_of(order), src), |e| v::rans_4x8_decode(e), want_obs)
+    roundtrip(what, src, || v::rans_4x8_encode(order_of(order), src), |e| v::rans_4x8_decode(e), want_obs)
 }
 
 fn r4d_case(c: &Case) -> Obs {
@@ -462,8 +350,7 @@ fn r4d_case(c: &Case) -> Obs {
     // the stream in the case must be what the encoder produces now
     let now = guarded(AssertUnwindSafe(|| v::rans_4x8_encode(order_of(order), &src)));
     let same = matches!(&now, Outcome::Done(Ok(e)) if *e == enc);
-    let known = r4_known_class(order as u8, &src);
-    let tag = |cause: &str| known.clone().unwrap_or_else(|| format!("rans4x8-o{order}-{cause}"));
+    let tag = |cause: &str| format!("rans4x8-o{order}-{cause}");
     match guarded(AssertUnwindSafe(|| v::rans_4x8_decode(&enc))) {
         Outcome::Done(Ok(d)) => {
             let obs = long_obs(&d);
@@ -486,48 +373,32 @@ fn r4d_case(c: &Case) -> Obs {
 fn nx16_case(flags: u8, src: &[u8]) -> Obs {
     let f = rans_nx16::Flags::from(flags);
     let n = src.len();
-    let known = c08_nx16_classes::nx16_known_class(flags, src).map(String::from);
-    if known.as_deref().is_some_and(|k| k.ends_with("zero-max")) {
-        return Obs::fail("-", known.as_deref().unwrap(), "not executed: the encoder would never terminate");
+    if flags & 0x29 == 0 && flags & 0xc0 == 0 && old_correction_zeroes_max(&o0_counts(src), 4096) && !normaliser_repaired() {
+        return Obs::fail("-", "nx16-normalize-zero-max", "not executed: this encoder lacks the normalisation repair (probe input panicked) and would never terminate");
     }
-    roundtrip(&format!("nx16-f{flags:02x}"), src, known, || v::rans_nx16_encode(f, src), |e| v::rans_nx16_decode(e, n), false)
+    roundtrip(&format!("nx16-f{flags:02x}"), src, || v::rans_nx16_encode(f, src), |e| v::rans_nx16_decode(e, n), false)
 }
 
 fn aac_case(flags: u8, src: &[u8]) -> Obs {
     let f = aac::Flags::from(flags);
     let n = src.len();
-    let known = c08_classes::aac_known_class(flags, src).map(String::from);
-    roundtrip(&format!("aac-f{flags:02x}"), src, known, || v::aac_encode(f, src), |e| v::aac_decode(e, n), false)
-}
-
-fn fqz_known_class(lens: &[usize], _src: &[u8]) -> Option<String> {
-    if lens.is_empty() {
-        return Some("fqzcomp-empty-input".into()); // encoder indexes lens[0]
-    }
-    if lens.len() > 1 && lens[..lens.len() - 1].iter().any(|&l| l == 0) {
-        return Some("fqzcomp-zero-length-record".into()); // `p -= 1` underflows on the next quality
-    }
-    None
+    roundtrip(&format!("aac-f{flags:02x}"), src, || v::aac_encode(f, src), |e| v::aac_decode(e, n), false)
 }
 
 fn fqz_case(lens: &[usize], src: &[u8]) -> Obs {
-    roundtrip("fqzcomp", src, fqz_known_class(lens, src), || v::fqzcomp_encode(lens, src), |e| v::fqzcomp_decode(e), false)
+    roundtrip("fqzcomp", src, || v::fqzcomp_encode(lens, src), |e| v::fqzcomp_decode(e), false)
 }
 
 fn names_case(src: &[u8]) -> Obs {
-    let known = c08_classes::names_known_class(src).map(String::from);
-    if known.as_deref() == Some("names-nx16-normalize-zero-max") {
-        return Obs::fail("-", "names-nx16-normalize-zero-max", "not executed: the Nx16 encoder would never terminate");
-    }
-    roundtrip("names", src, known, || v::name_tokenizer_encode(src), |e| v::name_tokenizer_decode(e), false)
+    roundtrip("names", src, || v::name_tokenizer_encode(src), |e| v::name_tokenizer_decode(e), false)
 }
 
 fn ext_case(kind: &str, level: u32, src: &[u8]) -> Obs {
     let n = src.len();
     match kind {
-        "gz" => roundtrip("gzip", src, None, || v::gzip_encode(level, src), |e| { let mut d = vec![0; n]; v::gzip_decode(e, &mut d)?; Ok(d) }, false),
-        "bz2" => roundtrip("bzip2", src, None, || v::bzip2_encode(level, src), |e| { let mut d = vec![0; n]; v::bzip2_decode(e, &mut d)?; Ok(d) }, false),
-        _ => roundtrip("lzma", src, None, || v::lzma_encode(level, src), |e| { let mut d = vec![0; n]; v::lzma_decode(e, &mut d)?; Ok(d) }, false),
+        "gz" => roundtrip("gzip", src, || v::gzip_encode(level, src), |e| { let mut d = vec![0; n]; v::gzip_decode(e, &mut d)?; Ok(d) }, false),
+        "bz2" => roundtrip("bzip2", src, || v::bzip2_encode(level, src), |e| { let mut d = vec![0; n]; v::bzip2_decode(e, &mut d)?; Ok(d) }, false),
+        _ => roundtrip("lzma", src, || v::lzma_encode(level, src), |e| { let mut d = vec![0; n]; v::lzma_decode(e, &mut d)?; Ok(d) }, false),
     }
 }
 
@@ -541,6 +412,32 @@ fn shaped(rng: &mut Rng, shape: &str, len: usize) -> Vec<u8> {
         "uniform" => rng.bytes(len),
         "f8" => vec![65u8; 1_048_833],
         "f8ok" => vec![65u8; 1_048_832],
+        "zmax4x8" => {
+            // 41 symbols x 372 + 135 symbols x 1: the old correction left frequency 0 for the maximum (4095)
+            let mut v = Vec::new();
+            for s in 0..41u8 {
+                v.extend(std::iter::repeat(s).take(372));
+            }
+            v.extend(41..176u8);
+            v
+        }
+        "zmaxnx16" => {
+            // 41 symbols x 364 + 136 symbols x 1: the same for the Nx16 normalisation (4096)
+            let mut v = Vec::new();
+            for s in 0..41u8 {
+                v.extend(std::iter::repeat(s).take(364));
+            }
+            v.extend(41..177u8);
+            v
+        }
+        "nx16under" => {
+            // symbols 0..=172 once, 173..=255 390 times each: the old Nx16 correction underflowed
+            let mut v: Vec<u8> = (0..=172u8).collect();
+            for s in 173..=255u8 {
+                v.extend(std::iter::repeat(s).take(390));
+            }
+            v
+        }
         "f8b" => {
             // DESIGN F8b: 127 symbols x 4128, one x 3871, 128 symbols x 1 (528,255 bytes)
             let mut v = Vec::with_capacity(528_255);
@@ -851,9 +748,6 @@ fn generate(rng: &mut Rng, tier: &str, w: &mut CaseWriter) {
             if order == 1 && src.len() < 4 {
                 continue;
             }
-            if r4_known_class(order as u8, src).is_some() {
-                continue;
-            }
             if src.len() <= 3000 {
                 if let Outcome::Done(Ok(enc)) = guarded(AssertUnwindSafe(|| v::rans_4x8_encode(order_of(order), src))) {
                     w.push("r4d", vec![order.to_string(), hex(src), hex(&enc)]);
@@ -919,9 +813,13 @@ fn generate(rng: &mut Rng, tier: &str, w: &mut CaseWriter) {
     }
 
     // ---- witnesses of the normalisation defects (DESIGN F8, F8b) and the last good size
-    for shape in ["f8", "f8ok", "f8b"] {
+    for shape in ["f8", "f8ok", "f8b", "zmax4x8"] {
         w.push("big", vec!["r4".into(), "0".into(), shape.into(), "0".into(), "0".into()]);
     }
+    for shape in ["zmaxnx16", "nx16under"] {
+        w.push("big", vec!["nx16".into(), "0".into(), shape.into(), "0".into(), "0".into()]);
+    }
+    w.push("big", vec!["nx16".into(), "0".into(), "f8".into(), "0".into(), "0".into()]);
     w.push("fqz", vec!["5,0,5".into(), hex(&[30u8; 10])]);
     w.push("fqz", vec!["4,4,0".into(), hex(&[30u8; 8])]);
     // ---- big inputs, built inside `run`
